@@ -553,9 +553,18 @@ def header_writer(ctx) -> Dict[bytes, Tuple[set, ast.AST]]:
             if isinstance(l, ast.Constant) and isinstance(l.value, bytes) and l.value.startswith(b"#") and len(l.value) > 1:
                 key = l.value[1:].strip() if l.value.endswith(b" ") or l.value == b"#" else l.value[1:] + b"xx"
                 fields = {C.self_attr(x) for x in ast.walk(n) if C.self_attr(x)}
-                for x in ast.walk(n):
-                    if isinstance(x, ast.Name) and len(ldefs.get(x.id, [])) == 1:
-                        fields |= {C.self_attr(y) for y in ast.walk(ldefs[x.id][0]) if C.self_attr(y)}
+                # (through every definition of a local operand, a few hops: a value chosen by guard clauses has several)
+                seen_n, todo = set(), [x.id for x in ast.walk(n) if isinstance(x, ast.Name)]
+                for _hop in range(4):
+                    nxt = []
+                    for nm_ in todo:
+                        if nm_ in seen_n:
+                            continue
+                        seen_n.add(nm_)
+                        for d_ in ldefs.get(nm_, []):
+                            fields |= {C.self_attr(y) for y in ast.walk(d_) if C.self_attr(y)}
+                            nxt += [y.id for y in ast.walk(d_) if isinstance(y, ast.Name)]
+                    todo = nxt
                 # loop-carried: for e, b in enumerate(self.bpms, 1) / for k, v in self.samples.items()
                 names = {x.id for x in ast.walk(n) if isinstance(x, ast.Name)}
                 for f in walk_no_nested(wr.node):
